@@ -85,3 +85,56 @@ def run(chk):
                     chk.ob(RG, "%s|grab@%d" % (short, fn.line_of(g_) - fn.line), True, loc=fn.loc(g_))
     chk.floor(RB + ":success-returns", nb, 2)
     chk.floor(RG + ":grabs", ng, 3)
+
+
+def run_bind_last(chk):
+    RL = "R-NO-FAILURE-AFTER-BIND"
+    chk.rule(RL, "in BaseAssembler / BaseBuilder: a function that binds its Label parameter has no failing exit on the paths after the bind "
+                 "succeeded (every return reachable from the success edge of the bind returns the constant kOk): everything that can fail - "
+                 "reserving buffer space, creating the data node - happens before the label is bound, otherwise a failed call leaves the label "
+                 "bound to nothing and the retry is refused with kLabelAlreadyBound")
+    n = 0
+    for unit, rex in UNITS[:2]:
+        f = chk.facts(unit, funcs=rex)
+        for fn in cfg.load_functions(f):
+            if not fn.file.endswith(unit.split("/")[-1]) or fn.name.endswith("::bind"):
+                continue
+            label_params = {p["did"] for p in fn.params if "Label" in p["ty"]}
+            blk = fn.block_of()
+            for i, x in fn.calls(lambda x: x["k"] in ("mcall", "call") and x.get("cn") == "bind" and x.get("args")):
+                if (fn.e(fn.strip(x["args"][0])) or {}).get("did") not in label_params:
+                    continue
+                # the block that tests the propagated result: its failing edge returns, the other edge is the success edge
+                b0 = None
+                for el_owner in (i, fn.parent_map().get(i)):
+                    if el_owner in blk:
+                        b0 = blk[el_owner][0]
+                        break
+                if b0 is None:
+                    continue
+                succ = [s for s in fn.blocks[b0]["succs"] if s is not None]
+                fail_rets = set()
+                good = []
+                for s in succ:
+                    rs = [r for bb, idx, r in fn.return_sites() if bb == s]
+                    if rs and all((fn.e(fn.strip(fn.e(r).get("val"))) or {}).get("cvn") != "kOk" for r in rs) and len(fn.blocks[s]["elems"]) <= 6:
+                        fail_rets.add(s)
+                    else:
+                        good.append(s)
+                n += 1
+                reach = set()
+                for s in good:
+                    reach |= fn.reachable_from(s, avoid=fail_rets)
+                bad = None
+                for bb, idx, r in fn.return_sites():
+                    if bb in reach:
+                        v = fn.e(fn.strip(fn.e(r).get("val"))) if fn.e(r).get("val") is not None else None
+                        if v is None or v.get("cvn") != "kOk":
+                            bad = r
+                            break
+                short = fn.name.replace("asmjit::", "")
+                chk.ob(RL, "%s|after-bind" % short, bad is None, loc=fn.loc(bad) if bad is not None else fn.loc(i),
+                       detail="%s can still fail (`%s`, line %s) after it bound the label: the label stays bound without its data and the call cannot "
+                              "be repeated" % (short, " ".join(fn.text(bad).split())[:50] if bad is not None else "", fn.line_of(bad) if bad is not None else ""),
+                       key="bindlast|%s" % short)
+    chk.floor(RL + ":binds", n, 2)
